@@ -20,35 +20,55 @@ fn to_t<T: Real>(x: &[(f64, f64)]) -> Vec<Complex<T>> {
 }
 
 /// relative L2 error of `out` against the reference on the bins `bins` (all bins when `bins` is None)
-fn rel_err<T: Real>(out: &[Complex<T>], reference: &[(f64, f64)], bins: Option<&[usize]>) -> f64 {
-    let mut num = 0.0;
-    let mut den = 0.0;
-    let mut acc = |k: usize, i: usize| {
+fn rel_err<T: Real>(out: &[Complex<T>], reference: &[(f64, f64)], bins: Option<&[usize]>, x_norm2: f64) -> f64 {
+    let err2 = |k: usize, i: usize| -> f64 {
         let dr = out[k].re.to() - reference[i].0;
         let di = out[k].im.to() - reference[i].1;
-        num += dr * dr + di * di;
-        den += reference[i].0 * reference[i].0 + reference[i].1 * reference[i].1;
+        dr * dr + di * di
     };
     match bins {
         None => {
+            let mut num = 0.0;
+            let mut den = 0.0;
             for k in 0..out.len() {
-                acc(k, k)
+                num += err2(k, k);
+                den += reference[k].0 * reference[k].0 + reference[k].1 * reference[k].1;
             }
+            if !num.is_finite() {
+                return f64::INFINITY;
+            }
+            if den == 0.0 {
+                return if num == 0.0 { 0.0 } else { f64::INFINITY };
+            }
+            (num / den).sqrt()
         }
         Some(b) => {
-            for (i, &k) in b.iter().enumerate() {
-                acc(k, i)
+            // sampled bins. The property's measure is the error relative to the WHOLE exact spectrum, whose squared norm is
+            // n*|x|^2 (Parseval). The last FORCED bins (0, n/2, n-1: where structured inputs concentrate their energy) enter
+            // with weight 1, the randomly drawn bins stand for the remaining n - FORCED bins.
+            let n = out.len() as f64;
+            let nrandom = b.len() - FORCED;
+            let mut rnd = 0.0;
+            for (i, &k) in b.iter().enumerate().take(nrandom) {
+                rnd += err2(k, i);
             }
+            let mut forced = 0.0;
+            for (i, &k) in b.iter().enumerate().skip(nrandom) {
+                forced += err2(k, i);
+            }
+            let total = forced + rnd * (n - FORCED as f64).max(0.0) / nrandom.max(1) as f64;
+            if !total.is_finite() {
+                return f64::INFINITY;
+            }
+            let den = n * x_norm2;
+            if den == 0.0 {
+                return if total == 0.0 { 0.0 } else { f64::INFINITY };
+            }
+            (total / den).sqrt()
         }
     }
-    if !num.is_finite() {
-        return f64::INFINITY;
-    }
-    if den == 0.0 {
-        return if num == 0.0 { 0.0 } else { f64::INFINITY };
-    }
-    (num / den).sqrt()
 }
+const FORCED: usize = 3;
 
 struct Case {
     class: &'static str,
@@ -100,7 +120,8 @@ fn run_type<T: Real>(kinds: &[Kind], n: usize, cases: &[Case], name: &str, worst
                         Err(e) => rep.fail(format!("panic {} {} {}", tag, ENTRY_NAMES[entry], case.class), e),
                         Ok(out) => {
                             let (bins, vals) = &case.refs[di];
-                            let e = rel_err(&out, vals, bins.as_deref());
+                            let x_norm2: f64 = case.x.iter().map(|v| v.0 * v.0 + v.1 * v.1).sum();
+                            let e = rel_err(&out, vals, bins.as_deref(), x_norm2);
                             let ratio = e / b;
                             if ratio > *worst {
                                 *worst = ratio;
